@@ -10,7 +10,8 @@ from ..runner import derive_seed
 ID = "C13"
 LEVEL = "exploration"
 RULE = ("scenario = server history of <=12 frames (text, binary, fragmented, ping, pong) grouped into bursts (several "
-        "frames written in one segment, then silence) at chosen virtual times, ended by a close frame or end of stream; "
+        "frames written in one segment, then silence) at chosen virtual times, ended by a close frame, end of stream, or a close "
+        "frame glued to the last burst with the server gone at once (the client's automatic replies fail to write); "
         "every subset of {on_open, on_message, on_data, on_ping, on_pong, on_error} set; any subset of the non-error "
         "callbacks raising; plain transport with seeded chunking and TLS transport (SSLDispatcher, pending()).  Oracle: "
         "the callback trace restricted to open/data/message/ping/pong equals the model's (open first; per event, in "
@@ -69,7 +70,7 @@ def gen(rng):
             items.append({"t": t, "frames": burst})
     # a fragmented message may also straddle bursts
     t += rng.choice((S // 2, S, 11 * S))
-    end = {"t": t, "kind": rng.choice(("close", "close", "eof")), "body_hex": rng.choice(("", "03e8", "03e8627965"))}
+    end = {"t": t, "kind": rng.choice(("close", "close", "eof", "close_reset")), "body_hex": rng.choice(("", "03e8", "03e8627965"))}
     cbs = {}
     for name in EVENT_CBS + ("on_error",):
         if rng.random() < 0.8:
@@ -107,6 +108,9 @@ def expand(item, seed):
             for tls in (False, True):
                 yield {"items": REF_ITEMS, "end": {"t": 3 * S, "kind": "close", "body_hex": "03e8"}, "callbacks": cbs,
                        "tls": tls, "sizes": [] if tls else [2], "seed": 1}
+                if mask % 4 == 1:
+                    yield {"items": REF_ITEMS, "end": {"t": 3 * S, "kind": "close_reset", "body_hex": "03e8"}, "callbacks": cbs,
+                           "tls": tls, "sizes": [], "seed": 1}
                 if mask % 5 == 3:
                     yield {"items": REF_ITEMS, "end": {"t": 3 * S, "kind": "close", "body_hex": "03e8"}, "callbacks": cbs,
                            "tls": tls, "sizes": [] if tls else [2], "seed": 1, "cross_redirect": True}
@@ -124,7 +128,7 @@ def run(sc, choices=None):
     try:
         items = list(sc["items"])
         end = dict(sc["end"])
-        if end["kind"] not in ("close", "eof"):
+        if end["kind"] not in ("close", "eof", "close_reset"):
             raise InvalidScenario("end")
         cbs = dict(sc.get("callbacks") or {})
         for n in cbs:
@@ -155,7 +159,17 @@ def run(sc, choices=None):
             stream_off += len(data)
         if int(end["t"]) < last_t:
             raise InvalidScenario("end before last burst")
-        if end["kind"] == "close":
+        if end["kind"] == "close_reset":
+            # the server writes its last burst and its close frame in one segment and is gone at once: from that instant the
+            # client's writes (automatic pongs, the close reply) fail; everything that has arrived must still be delivered
+            body = bytes.fromhex(end.get("body_hex", ""))
+            if not script:
+                raise InvalidScenario("close_reset needs a burst")
+            last = script[-1]
+            last["hex"] += R.encode_frame(1, 8, body).hex()
+            last["client_send_fail"] = "ECONNRESET"
+            last["end"] = "reset"
+        elif end["kind"] == "close":
             body = bytes.fromhex(end.get("body_hex", ""))
             script.append({"t": int(end["t"]), "hex": R.encode_frame(1, 8, body).hex()})
             script.append({"t": int(end["t"]), "end": "eof"})
